@@ -59,23 +59,42 @@ def run(ctx):
                    sorted(x for x in p0 if x[0] in "cn")[:6], sorted(x for x in p1 if x[0] in "cn")[:6]),
                c.where())
     ctm = F.find1(S2C + "references::check_types_match", kind="Fn")
-    r = g("R15.types", "check_types_match:equal=>Err", ctm, CallResult("itertools::equal", False),
-          err=("ReferencesError", "InvalidReferenceTypeForArgument"))
-    eq_calls = ctm.calls_to("itertools::equal")
-    ok = False
-    msg = "itertools::equal not called on (types, refs.map(ty))"
-    if len(eq_calls) == 1:
+    # accepted idioms: (a) whole-sequence equality (itertools::equal / Iterator::eq / slice ==) of
+    # (types, refs.map(ty)); (b) an element-wise loop with a `ty` inequality guard AND an exhaustion /
+    # length guard, so that a strict prefix is rejected too.
+    ERR = ("ReferencesError", "InvalidReferenceTypeForArgument")
+    eq_calls = [c for c in ctm.calls() if c.path in ("itertools::equal",) or
+                (c.name() == "eq" and "Iterator" in c.via) or c.name() == "equal"]
+    cl = F.closures_of(ctm)
+    reads_ty = any("ty" in place_fields(p) for f in [ctm] + cl for _, _, st in f.stmts() if st[0] == "a"
+                   for p in rvalue_places(st[2]))
+    if eq_calls:
+        g("R15.types", "check_types_match:sequence-equality=>Err", ctm, CallResult(eq_calls[0].name(), False), err=ERR)
         c = eq_calls[0]
         p0, p1 = op_prov(ctm, c.args[0]), op_prov(ctm, c.args[1])
         both = (("a:types" in p0 and "a:refs" in p1) or ("a:types" in p1 and "a:refs" in p0))
-        # the mapping closure projects `.ty`
-        cl = [f for f in F.closures_of(ctm)]
-        reads_ty = any("ty" in place_fields(p) for f in cl for _, _, st in f.stmts() if st[0] == "a"
-                       for p in rvalue_places(st[2]))
-        ok = both and reads_ty
-        msg = "equal(types, refs.map(|r| &r.ty))" if ok else "operands: %s | %s reads_ty=%s" % (
-            sorted(x for x in p0 if x[0] == "a"), sorted(x for x in p1 if x[0] == "a"), reads_ty)
-    ctx.ob("R15.types", "check_types_match:operands", ok, msg, ctm.where())
+        ok = len(eq_calls) == 1 and both and reads_ty
+        ctx.ob("R15.types", "check_types_match:operands", ok,
+               "equal(types, refs.map(|r| &r.ty))" if ok else "operands: %s | %s reads_ty=%s" % (
+                   sorted(x for x in p0 if x[0] == "a"), sorted(x for x in p1 if x[0] == "a"), reads_ty), ctm.where())
+    else:
+        r1 = check_guard(ctm, Cmp("ne", "f:ty", None), err=ERR)
+        if not r1.ok:
+            r1 = check_guard(ctm, Cmp("eq", "f:ty", None), err=ERR)
+        ctx.ob("R15.types", "check_types_match:sequence-equality=>Err", r1.ok,
+               "element-wise type comparison: " + r1.msg, ctm.where(r1.line))
+        # exhaustion: the other sequence must be checked to be finished (a `next()` that is Some
+        # after the loop rejects), or the lengths compared
+        r2 = check_guard(ctm, Cmp("ne", "c:len", "c:len"), err=ERR, bypass="none")
+        if not r2.ok:
+            r2 = check_guard(ctm, CallResult("::next", "Some", arg="a:types"), err=ERR, bypass="none")
+            if r2.ok:
+                # must be outside the element loop (i.e. after it): the guard block is not in a loop
+                from .guards import innermost_loop
+                r2.ok = innermost_loop(ctm, r2.site) is None
+        ctx.ob("R15.types", "check_types_match:operands", r2.ok and reads_ty,
+               "element-wise form must also reject sequences of different length (strict prefixes): %s" % (
+                   r2.msg if not r2.ok else "length/exhaustion guard present"), ctm.where())
 
     # ---- clause: every variable consumed exactly once
     take_args = F.find1(S2C + "annotations::ProgramAnnotations::get_annotations_after_take_args")
